@@ -246,6 +246,7 @@ class Interp:
         self.valuation = list(valuation or [])     # [(Form, number)]: assumed numeric value of a sub-term (e.g. a length)
         self.cmp_points: set = set()               # numeric values met in decided order/equality comparisons
         self.fit_log: list = []                    # (call node, args, kwargs, depth) of every estimator.fit(...) met, in order
+        self._gbusy: set = set()
         self.keep_astype = False                   # keep x.astype(t) visible in value forms instead of treating it as the identity
         self.unroll_literal_loops = False          # execute `for row in <literal table>` row by row instead of abstracting the loop
         self.stop_at_calls: set = set()            # dotted callee names at which a top-level path is cut (counts as a return)
@@ -346,9 +347,11 @@ class Interp:
             if nm in kwargs:
                 st.env[nm] = kwargs[nm]
                 used_kw.add(nm)
-            elif top:
+            elif top and (nm in self.param_values or nm in self.param_classes or nm in self.assumptions or d is None):
                 st.env[nm] = self._top_param(fi, nm, d)
             elif d is not None:
+                # a keyword-only option keeps its default unless a rule says otherwise: the properties are stated for the
+                # calls that existed before the option did
                 st.env[nm] = self._eval_default(fi, d)
             else:
                 st.env[nm] = Form.sym(nm)
@@ -948,6 +951,13 @@ class Interp:
             return self._is_none(r, st)
         if isinstance(l, Const) and isinstance(r, Const):
             return l.v is r.v
+        if isinstance(l, ClassRef) and isinstance(r, ClassRef):
+            return l.name.split(".")[-1] == r.name.split(".")[-1]     # `type(self) is electrical_signal`
+        for a_, b_ in ((l, r), (r, l)):
+            if isinstance(a_, ClassRef) and isinstance(b_, Form):
+                at = b_.single_atom()
+                if at == ("sym", "self.__class__") and self.self_class:
+                    return self.self_class == a_.name.split(".")[-1]
         return None
 
     def _is_none(self, v, st):
@@ -1261,11 +1271,15 @@ class Interp:
                 return FuncV(m.funcs[q])
             if nm in m.globals and len(parts) == 3:
                 g = m.globals[nm]
-                if isinstance(g, (ast.Tuple, ast.List, ast.Constant)):
+                if _literal_like(g) and (m.name, nm) not in self._gbusy:
+                    # module-level constants and lookup tables (numbers, strings, tuples, dicts of functions, arithmetic on them)
+                    self._gbusy.add((m.name, nm))
                     try:
                         return self.eval(g, State(), _ModuleScope(m), 0)
                     except Exception:
                         pass
+                    finally:
+                        self._gbusy.discard((m.name, nm))
                 if nm == "gv":
                     return Form.sym("gv")
             if nm == "gv":
@@ -1535,6 +1549,10 @@ class Interp:
                 return r
         if isinstance(base, DictV):
             v = base.get(idx)
+            if v is None:
+                kc = self._const_of(idx, st) if not isinstance(idx, Const) else _MISSING
+                if kc is not _MISSING and isinstance(kc, (str, int, bool)):
+                    v = base.get(Const(kc))
             if v is not None:
                 return v
             # symbolic key: value for each key
@@ -1713,6 +1731,12 @@ class Interp:
                 q = f"{m.name}.{parts[2]}"
                 if q in m.funcs:
                     return self._call_func(m.funcs[q], args, kwargs, st, fi, depth, n, rec)
+            if m is not None and len(parts) == 4 and parts[2] in m.globals and parts[2] != "gv" and parts[2] not in m.classes:
+                # method of a module-level object (lookup table): TABLE.get(key), TABLE.items() ...
+                obj = self._global_value(".".join(parts[:3]), fi)
+                if isinstance(obj, (DictV, TupleV)):
+                    rec.callee = f"<{type(obj).__name__}>.{parts[3]}"
+                    return self._method_call(obj, parts[3], args, kwargs, st, fi, depth, n, rec)
             if len(parts) >= 4 and parts[2] == "gv":
                 rec.callee = name
                 return Form.atom(("fn", name, tuple(map(as_value, args)), tuple(sorted((k, as_value(v)) for k, v in kwargs.items()))))
@@ -1940,7 +1964,12 @@ class Interp:
             return self._call_value(fv, args, kwargs, st, fi, depth, n, rec)
         if isinstance(base, DictV):
             if attr == "get" and args:
-                v = base.get(args[0])
+                key = args[0]
+                v = base.get(key)
+                if v is None:
+                    kc = self._const_of(key, st) if not isinstance(key, Const) else _MISSING
+                    if kc is not _MISSING and isinstance(kc, (str, int, bool)):
+                        v = base.get(Const(kc))
                 if v is not None:
                     return v
                 return args[1] if len(args) > 1 else NONE
@@ -2092,6 +2121,20 @@ class Interp:
 
 def _full_slice(i):
     return isinstance(i, SliceV) and all(isinstance(x, Const) and x.v is None for x in (i.lo, i.hi, i.step))
+
+
+def _literal_like(g):
+    """module-level value that is safe to evaluate symbolically: literals, containers of them, names, attribute paths,
+    arithmetic, lambdas; no calls except pure numeric helpers"""
+    for n in ast.walk(g):
+        if isinstance(n, ast.Call):
+            f = n.func
+            nm = f.attr if isinstance(f, ast.Attribute) else (f.id if isinstance(f, ast.Name) else "")
+            if nm not in ("log", "log2", "log10", "sqrt", "exp", "float", "int", "tuple", "frozenset", "dict", "list", "set"):
+                return False
+        elif isinstance(n, (ast.Await, ast.Yield, ast.YieldFrom, ast.NamedExpr, ast.ListComp, ast.DictComp, ast.SetComp, ast.GeneratorExp)):
+            return False
+    return True
 
 
 def _selects_all(idx):
